@@ -211,7 +211,7 @@ def main() -> int:
             for vi, v in enumerate(VALUES):
                 if nonfinite is not None and (isinstance(v, float) and not math.isfinite(v)) != nonfinite:
                     continue
-                for route in ("direct", "ref", "allof", "allof_any_base", "shared_enum_name", "query", "header", "cookie"):
+                for route in ("direct", "ref", "ref_nullable", "allof", "allof_any_base", "shared_enum_name", "query", "query_ref_nullable", "header", "cookie"):
                     if route in ("header",) and kind not in ("string", "integer", "number", "boolean", "enum_str", "enum_int"):
                         continue
                     if route == "cookie" and kind not in ("string", "enum_str"):
@@ -222,7 +222,9 @@ def main() -> int:
                         continue
                     if route == "allof_any_base" and (kind not in BASE_DEFAULT or BASE_DEFAULT[kind] == v or (quick and vi % 2 == 0)):
                         continue
-                    key = f"K{vi}{ {'allof_any_base': 'Y', 'shared_enum_name': 'N'}.get(route, route[0].upper())}"
+                    if route in ("ref_nullable", "query_ref_nullable") and (kind in ("any", "union", "union_date_int") or kind.startswith("const") or (quick and vi % 2)):
+                        continue
+                    key = f"K{vi}{ {'allof_any_base': 'Y', 'shared_enum_name': 'N', 'ref_nullable': 'L', 'query_ref_nullable': 'M'}.get(route, route[0].upper())}"
                     sch = dict(schema, default=v)
                     if route == "direct":
                         comps[key] = {"type": "object", "properties": {"p": sch}}
@@ -231,6 +233,13 @@ def main() -> int:
                             continue
                         comps[key + "T"] = dict(schema)
                         comps[key] = {"type": "object", "properties": {"p": {"allOf": [{"$ref": f"#/components/schemas/{key}T"}], "default": v}}}
+                    elif route == "ref_nullable":
+                        # 3.0 spelling of a nullable reference with a default of its own
+                        comps[key + "T"] = dict(schema)
+                        comps[key] = {"type": "object", "properties": {"p": {"nullable": True, "allOf": [{"$ref": f"#/components/schemas/{key}T"}], "default": v}}}
+                    elif route == "query_ref_nullable":
+                        comps[key + "T"] = dict(schema)
+                        paths[f"/{key.lower()}"] = {"get": {"operationId": f"op_{key.lower()}", "parameters": [{"name": "p", "in": "query", "schema": {"nullable": True, "allOf": [{"$ref": f"#/components/schemas/{key}T"}], "default": v}}], "responses": {"200": {"description": "ok"}}}}
                     elif route == "allof_any_base":
                         # declared first without a type but with another default; the later, typed declaration decides
                         comps[key + "B"] = {"type": "object", "properties": {"p": {"description": "untyped first", "default": BASE_DEFAULT[kind]}}}
@@ -330,7 +339,7 @@ def main() -> int:
                         vd.violation(f"exception:{(vr.get('exc') or {}).get('type')}:{kind}:{route}", f"{kind} default {v!r} ({route}): call omitting the argument raised {(vr.get('exc') or {}).get('msg', '')[:100]}", w)
                         continue
                     c = reqs[0]
-                    if route == "query":
+                    if route in ("query", "query_ref_nullable"):
                         vals = [q[1] for q in c["query"] if q[0] == "p"]
                     elif route == "header":
                         vals = [h[1] for h in c["headers"] if h[0].lower() == "p"]
